@@ -101,6 +101,22 @@ def generate(tier, rng):
     return []
 
 
+def sweep(root):
+    """safety net: kill whatever still has its working directory under `root` (the shell and the helpers of a
+    session run in <session dir>/cwd)"""
+    import signal
+    n = 0
+    for name in os.listdir("/proc"):
+        if name.isdigit() and int(name) != os.getpid():
+            try:
+                if os.readlink("/proc/%s/cwd" % name).startswith(root + "/"):
+                    os.kill(int(name), signal.SIGKILL)
+                    n += 1
+            except OSError:
+                pass
+    return n
+
+
 def run_session(cicada, sb_dir, c, expected, seed):
     d = tempfile.mkdtemp(prefix=c.id + "-", dir=sb_dir)
     cfg = {"cicada": cicada, "helpers": os.path.join(core.BUILD, "helpers"), "dir": d, "acts": c.fields[0], "expected": expected,
@@ -112,6 +128,7 @@ def run_session(cicada, sb_dir, c, expected, seed):
         res = json.loads(p.stdout)
     except subprocess.TimeoutExpired:
         res = {"obs": [], "error": "worker exceeded 900 s", "log": []}
+        sweep(d)
     except ValueError:
         res = {"obs": [], "error": "worker produced no result: %s" % (p.stderr or "")[-300:], "log": []}
     res["wall"] = time.time() - t0
@@ -146,11 +163,11 @@ def process(tier, rng, cicada):
     t0 = time.time()
     with ThreadPoolExecutor(max_workers=workers) as ex:
         results = list(ex.map(lambda ce: run_session(cicada, sb_dir, ce[0], ce[1], r.fork(ce[0].id).below(1 << 30)), runnable))
-    try:
-        os.rmdir(sb_dir)
-    except OSError:
-        import shutil
-        shutil.rmtree(sb_dir, ignore_errors=True)
+    left = sweep(sb_dir)
+    if left:
+        NOTES.append("%d process(es) of finished sessions had to be killed by the final sweep" % left)
+    import shutil
+    shutil.rmtree(sb_dir, ignore_errors=True)
     impl, kept = {}, []
     nact = 0
     for (c, exp), (cid, res) in zip(runnable, results):
@@ -169,6 +186,42 @@ def process(tier, rng, cicada):
     STATS["pty_wall_s"] = round(time.time() - t0, 1)
     STATS["workers"] = workers
     return [("pty", kept, impl)]
+
+
+def replay_session(r):
+    """./check replay <file> for a C07 session: run it again and print implementation, model and reference side by side"""
+    lk = core.lock()
+    try:
+        core.gen_constants()
+        core.lake_build(["cicada_model"])
+        cicada = core.build_binary()
+        core.build_helpers()
+    finally:
+        lk.close()
+    c = make_case(r["fields"][0], 0, "replay")
+    m = core.run_model([c], "C07replay").get(c.id)
+    if m is None or m[0].startswith("UNMODELLED"):
+        print("model:", m)
+        return 0
+    os.makedirs(core.WORK, exist_ok=True)
+    sb_dir = tempfile.mkdtemp(prefix="c07r-", dir=core.WORK)
+    _, res = run_session(cicada, sb_dir, c, m[0].split("|"), r.get("seed", 1))
+    sweep(sb_dir)
+    import shutil
+    shutil.rmtree(sb_dir, ignore_errors=True)
+    print("replayed now (guard=%s class=%s)%s:" % (m[2], m[3], " harness error: %s" % res["error"] if res.get("error") else ""))
+    acts = c.fields[0].split(";")
+    ms, ss = m[0].split("|"), m[1].split("|")
+    for k, a in enumerate(acts):
+        o = res["obs"][k] if k < len(res["obs"]) else "(not run)"
+        print("  %-12s impl  %s" % (a, o))
+        if k < len(ms) and o != ms[k]:
+            print("  %-12s model %s" % ("", ms[k]))
+        if k < len(ss) and project(c, o) != project(c, ss[k]):
+            print("  %-12s spec  %s" % ("", project(c, ss[k])))
+    for l in res.get("log", []):
+        print("  log:", l)
+    return 0
 
 
 def nontrivial(c, M, S, g, cls):
